@@ -1,6 +1,8 @@
 import Juniper.Driver.Basic
 import Juniper.Driver.C04
 import Juniper.Driver.C19
+import Juniper.Driver.C10
+import Juniper.Driver.C10Chan
 /-! `driver <model>`: runs one executable model behind the line protocol. Core-only (no Mathlib).
 Registration: one `import` line above and one `[("name", handler)],` line below per model
 (this file is merged with git's union driver, so keep one entry per line). -/
@@ -9,6 +11,8 @@ open Juniper.Driver
 def handlers : List (String × Handler) := List.flatten [
   [("deque", Juniper.Driver.C04.handler)],
   [("helpers", Juniper.Driver.C19.handler)],
+  [("pipe", Juniper.Driver.C10.handler)],
+  [("chanstream", Juniper.Driver.C10Chan.handler)],
   []]
 
 def main (args : List String) : IO UInt32 := do
